@@ -153,9 +153,9 @@ func seededBytes(seed uint64, n int, zero bool) []byte {
 
 // dstSpec is the layout of the destination slice handed to an append-style call.
 type dstSpec struct {
-	Mode  string `json:"mode"`            // nil | fresh | inplace
-	Len   int    `json:"len,omitempty"`   // fresh: len(dst)
-	Spare int    `json:"spare,omitempty"` // fresh: cap(dst)-len(dst); inplace: cap(input)-len(input)
+	Mode  string `json:"mode"`            // nil | fresh | inplace | inplace-prefix
+	Len   int    `json:"len,omitempty"`   // fresh: len(dst); inplace-prefix: bytes of dst in front of the input (a record header)
+	Spare int    `json:"spare,omitempty"` // fresh: cap(dst)-len(dst); inplace*: capacity behind the input
 }
 
 func (d dstSpec) class(needed int) string {
@@ -167,6 +167,11 @@ func (d dstSpec) class(needed int) string {
 			return "dst=inplace/cap>=needed"
 		}
 		return "dst=inplace/cap<needed"
+	case "inplace-prefix":
+		if d.Spare >= needed {
+			return "dst=inplace-behind-prefix/cap>=needed"
+		}
+		return "dst=inplace-behind-prefix/cap<needed"
 	}
 	l := "len0"
 	if d.Len > 0 {
@@ -188,6 +193,14 @@ func genDst(r *core.Rand, needed int, allowInplace bool) dstSpec {
 	case 0:
 		return dstSpec{Mode: "nil"}
 	case 2:
+		if allowInplace && r.Chance(1, 3) {
+			// dst is the header in front of the input, the output goes exactly where the input is
+			d := dstSpec{Mode: "inplace-prefix", Len: r.PickInt(1, 5, 12, 13, 16), Spare: needed + r.PickInt(0, 0, 1, 16, 100)}
+			if r.Chance(1, 4) {
+				d.Spare = r.Intn(needed + 1)
+			}
+			return d
+		}
 		if allowInplace {
 			if r.Chance(2, 3) {
 				return dstSpec{Mode: "inplace", Spare: needed + r.PickInt(0, 0, 1, 16, 100)}
@@ -230,4 +243,36 @@ func errStr(e error) string {
 		return "nil"
 	}
 	return fmt.Sprint(e)
+}
+
+// inplaceBuf lays out an in-place call: dst is the first d.Len bytes (a recognisable
+// prefix; zero for the plain idiom), the input follows immediately, then d.Spare... more
+// exactly: cap behind the input start is d.Spare for mode inplace (historical meaning:
+// cap(input)-len(input)) and for inplace-prefix. The bytes behind the input carry a canary.
+func inplaceBuf(d dstSpec, input []byte) (buf, dst, in []byte) {
+	l := 0
+	if d.Mode == "inplace-prefix" {
+		l = d.Len
+	}
+	buf = slackBuf(l+len(input), l+len(input)+d.Spare)
+	for i := 0; i < l; i++ {
+		buf[i] = byte(0xD0 + i)
+	}
+	copy(buf[l:], input)
+	full := buf[:cap(buf)]
+	for j := len(buf); j < len(full); j++ {
+		full[j] = byte(0x3C ^ j)
+	}
+	return buf, buf[:l], buf[l : l+len(input)]
+}
+
+// inplaceCanaryOK checks the bytes behind position from in an in-place buffer.
+func inplaceCanaryOK(buf []byte, from int) bool {
+	full := buf[:cap(buf)]
+	for j := from; j < len(full); j++ {
+		if full[j] != byte(0x3C^j) {
+			return false
+		}
+	}
+	return true
 }
